@@ -10,7 +10,7 @@ use serde_json::{json, Value};
 use white_whale_std::pool_network::asset::{Asset, AssetInfo};
 
 const U: [&str; 3] = ["alice", "bob", "carol"];
-const D: [&str; 4] = ["uatom", "ubtc", "uusdc", "uwhale"]; // 0,1 bonding; 2 not whitelisted; 3 distribution asset
+const D: [&str; 4] = ["uatom", "ubtc", LOOKALIKE_DENOM, "uwhale"]; // 0,1 bonding; 2 not whitelisted (a factory denom ending in "/uatom"); 3 distribution asset
 const NS: u64 = 1_000_000_000;
 
 #[derive(Clone, Debug)]
